@@ -26,7 +26,7 @@ P = {
             "max": 500, "thorough_max": 20000, "timeout": 600, "thorough_timeout": 1700},
     "driver": {"cmd": "wsync", "timeout": 1500},
     "n_random": (250, 5000),
-    "trace": {"module": "T_WS", "cfg": "T_WS.cfg", "timeout": 900, "heap": "4g"},
+    "trace": {"module": "T_WS", "cfg": "T_WS.cfg", "timeout": 900, "heap": "4g", "rerun_attempts": 4},
     "chunk": 150000,
     "signature": signature,
     "nontrivial": nontrivial,
@@ -35,7 +35,10 @@ P = {
             "bookmark / close): one per transition of I_WS's state graph (2 types x 2 keys, <=5 decisions in quick / <=7 in thorough, 2 faults; "
             "both watchRetryTimeout regimes in thorough) thinned by seed, TLC -simulate walks of 40 decisions, plus seeded random scripts "
             "(2-6 keys, 5-35% faulty answers); every script is followed by a healing phase and a sentinel write, and the "
-            "convergence check; a trace is non-trivial when it contains at least one failure outcome",
+            "convergence check; scripts and random runs also block the consumer inside a callback (hold/release) so that the "
+            "syncer consolidates several results in one pass; 16 scripted connection-loss scenarios per run (both types with "
+            "SendDeletesOnConnFail, watchRetryTimeout always exceeded, watch expired / 5 watch errors, re-List fails, consumer "
+            "held meanwhile); a trace is non-trivial when it contains at least one failure outcome",
     "assumptions": ["no UpdateProcessor (conversion is the identity); two resource types",
                     "watchRetryTimeout is either never or always exceeded (1h / -1ns); retry intervals shrunk to 1-3 ms",
                     "a wait that times out in the driver is a harness error (exit 2) after one re-execution, never a verdict",
@@ -62,6 +65,16 @@ def _std(ctx, PP):
 
 
 def run(ctx):
+    # first: sustained connection loss with SendDeletesOnConnFail while the consumer is held in a callback
+    # (scripted inputs, deterministic through the quiescence wait)
+    P0 = dict(P)
+    P0["design"] = []
+    P0["gen"] = None
+    P0["driver"] = dict(P["driver"], env={"VERIF_MODE": "connloss"})
+    P0["n_random"] = (16, 160)
+    _std(ctx, P0)
+    if ctx.violations:
+        return
     P1 = dict(P)
     if os.environ.get("VERIF_NODESIGN"):      # development aid for mutation campaigns: legs A+B only
         P1["design"] = []
